@@ -169,9 +169,20 @@ class Context:
                 return float(a)
             elif isinstance(to_type, ast.PointerType):
                 return int(a)
-            else:  # pragma: no cover
-                raise NotImplementedError(
-                    f"Casting to {expr.to_type} not implemented"
+            elif isinstance(to_type, ast.IntegerType) and isinstance(
+                a, (int, float)
+            ):
+                # Conversion to an N bit integer: wrap around
+                value = int(a) & ((1 << to_type.bits) - 1)
+                if isinstance(to_type, ast.SignedIntegerType) and value >= (
+                    1 << (to_type.bits - 1)
+                ):
+                    value -= 1 << to_type.bits
+                return value
+            else:
+                raise SemanticError(
+                    f"Cannot cast to {expr.to_type} in a constant expression",
+                    expr.loc,
                 )
         elif isinstance(expr, ast.Identifier):
             target = self.resolve_symbol(expr)
